@@ -5,7 +5,7 @@
 (* every row against ErrClass.                                               *)
 (*  {"t":"code","code":c,"mask":m,"emask":m2,"found":b,"lcode":c2}           *)
 (*  {"t":"fault","kind":k,"code":c,"input":"..."}                            *)
-EXTENDS ErrClass, Naturals, Sequences, TLC, Json, IOUtils
+EXTENDS ErrClass, ErrCodesCore, Naturals, Sequences, TLC, Json, IOUtils
 
 Rows == ndJsonDeserialize(IOEnv.ROWS)
 N == Len(Rows)
@@ -24,6 +24,7 @@ RowOk(r) ==
     CASE r.t = "code"  -> /\ r.mask = EsrMask(r.code)          \* ErrorCode::esr_mask
                           /\ r.emask = EsrMask(r.code)         \* Error::esr_mask
                           /\ (r.found => r.lcode = r.code)     \* lookup reports the same code
+                          /\ (r.code \in StandardCodes => r.found) \* and every standard number is found (0 = No error included)
       [] r.t = "fault" -> KindOk(r.kind, r.code)
       [] OTHER -> FALSE
 
